@@ -13,17 +13,19 @@ from .seqlock_model import (WriterModel, ReaderModel, REL_OK, ACQ_OK, classify_e
 LEVEL = 'other'
 
 
-def parity_of(value, leaf, conds):
+def parity_of(value, leaf, conds, same=()):
     """set of parities {0,1} (and whether 0 is possible) the term can take over all values of
-    `leaf` allowed by the path's atoms on that leaf"""
+    `leaf` allowed by the path's atoms on that leaf; `same`: further leaves known to be equal to it on this path.
+    n == 0 means no value satisfies the path's own atoms: the path is infeasible"""
     par = set()
     zero = False
     n = 0
+    leaves = (leaf,) + tuple(same)
     for g in range(65536):
-        env = {leaf: g}
+        env = {l: g for l in leaves}
         ok = True
         for c in conds:
-            if not arith.mentions(c[0], leaf):
+            if not any(arith.mentions(c[0], l) or c[0] == l for l in leaves):
                 continue
             h = arith.cond_holds(c, env)
             if h is False:
@@ -55,8 +57,12 @@ def run_rules(ctx, chk):
     # ---------------------------------------------------------------- S1 writer
     w = WriterModel(fb, chk, 'C02.S1')
     if w.ok:
+        n_feasible = 0
         for i, (p, evs) in enumerate(zip(w.paths, w.evs)):
             leaf = w.gen_leaf(i)
+            if leaf is not None and parity_of(leaf, leaf, p.conds)[2] == 0:
+                continue        # no start generation satisfies this path's own conditions: infeasible combination of branches
+            n_feasible += 1
             dws = [e for e in evs if e.kind == 'dwrite']
             gss = [e for e in evs if e.kind == 'gstore']
             chk.ob('C02.S1', 'write:has-data-write', bool(dws), p.where[2], '%d record writes on this path' % len(dws), nontrivial=False)
@@ -91,7 +97,7 @@ def run_rules(ctx, chk):
                 chk.ob('C02.S1', 'write:release-store-of-even-after-copy', fin_ok, d.site, detail)
                 chk.ob('C02.S1', 'write:no-copy-after-final-store', not [x for x in dws if after and x.n > after[-1].n], d.site,
                        'record writes after the final generation store: %d' % len([x for x in dws if after and x.n > after[-1].n]))
-        chk.floor('C02.S1', 'writer paths', len(w.paths), 2)
+        chk.floor('C02.S1', 'writer paths', n_feasible, 2)
 
     # ---------------------------------------------------------------- S2 / S3 reader
     r = ReaderModel(fb, chk, 'C02.S2')
@@ -134,16 +140,15 @@ def run_rules(ctx, chk):
                 # accepted on equality of the two loads, even
                 eq_ok = False
                 even_ok = False
-                g1 = None
-                for term, op, val2, _ in p.conds:
-                    if term[0] == 't' and term[1] in ('Eq', 'eq') and len(gls) >= 2:
-                        a, b = term[2]
+                g1 = g2 = None
+                for a, b in common.known_equal(p.conds):
+                    if len(gls) >= 2:
                         terms = {e.term for e in gls}
-                        if a in terms and b in terms and a != b and ((op == '!=' and set(val2) == {0}) or (op == '==' and val2 == 1)):
+                        if a in terms and b in terms and a != b:
                             eq_ok = True
-                            g1 = a
+                            g1, g2 = a, b
                 if g1 is not None:
-                    par, zero, n = parity_of(g1, g1, p.conds)
+                    par, zero, n = parity_of(g1, g1, p.conds, same=(g2,))
                     even_ok = par == {0} and not zero
                 chk.ob('C02.S2', 'snapshot:accept-iff-equal', eq_ok, p.where[2],
                        'acceptance path carries the atom first_gen == second_gen: %s' % eq_ok)
